@@ -656,6 +656,14 @@ async def c13_part(ctx) -> None:
                         elif (aid, iid) in seen:
                             bad = f"rejected {iid} notified"
                     else:
+                        # ground truth at the accessory: the value bytes it received are the value in the characteristic's
+                        # own wire format (HAP-BLE: little-endian integers of the declared width, 32-bit floats, UTF-8)
+                        fmt = acc.chars[iid][2]
+                        stored = acc.values.get(iid)
+                        want_raw = struct.pack("<" + PACK[fmt], v) if fmt in PACK else (v.encode() if isinstance(v, str) else None)
+                        if want_raw is not None and isinstance(stored, tuple) and stored[0] == "raw" and bytes(stored[1] or b"") != want_raw:
+                            bad = f"accepted {iid} ({fmt}): the accessory received value bytes {bytes(stored[1] or b'').hex()} for {v!r}, the format's encoding is {want_raw.hex()}"
+                            break
                         if got is not None and got.get("status"):
                             bad = f"accepted {iid} reported as {got!r}"
                         elif isread and seen.get((aid, iid)) != {"value": v}:
